@@ -18,13 +18,22 @@ import (
 
 // C08 — validating entry points never let an invalid claims-set through.
 
-func c08Gates(m *MClaims, c psatoken.IClaims, kp keyPair, st *Stats) string {
+// extRuleBroken: c is an extension-profile instance whose OWN rule (beyond
+// the ten standard claims) is violated, so its Validate() must fail although
+// the model of the standard claims is satisfied.
+func c08Gates(m *MClaims, c psatoken.IClaims, kp keyPair, st *Stats, extRuleBroken bool) string {
 	verr := c.Validate()
 	valid := verr == nil
-	if valid != m.Valid() {
+	if valid != (m.Valid() && !extRuleBroken) {
 		return fmt.Sprintf("Validate() = %v but the model says valid=%v (see C01)", verr, m.Valid())
 	}
 
+	if _, isExt := c.(*ExtP2Claims); isExt {
+		// the remaining comparisons model the built-in profile names
+		m = m.Clone()
+		m.Canon = ExtP2Name
+		m.Profile = sp(ExtP2Name)
+	}
 	// gate 1: Evidence.SetClaims
 	prev, _ := baseValid(m.Prof, 0).BuildLiteral()
 	ev := &psatoken.Evidence{Claims: prev}
@@ -247,9 +256,16 @@ func c08Gates(m *MClaims, c psatoken.IClaims, kp keyPair, st *Stats) string {
 }
 
 func TestC08_Gates(t *testing.T) {
-	st := NewStats("C08", "TestC08_Gates", "rapid: valid and invalid claims-sets of both profiles (C01's class-vector generator, as struct literals) through the seven validating entry points (SetClaims, ValidateAndEncode CBOR/JSON, ValidateAndSign, DecodeAndValidate CBOR/JSON(+deprecated alias)/COSE): each fails iff Validate() fails, emits/attaches nothing on failure, and equals its non-validating sibling on success. Non-trivial = invalid set whose defect is not merely a missing lifecycle; distinct = class vector")
-	st.Require = []string{"valid", "invalid", "gate=SetClaims", "gate=EncodeCBOR", "gate=EncodeJSON", "gate=ValidateAndSign", "gate=DecodeCBOR", "gate=DecodeJSON", "gate=DecodeCOSE", "invalid-encodable"}
+	st := NewStats("C08", "TestC08_Gates", "rapid: valid and invalid claims-sets of both profiles (C01's class-vector generator, as struct literals), and instances of a registered extension profile whose own Validate() rule is met or broken, through the seven validating entry points (SetClaims, ValidateAndEncode CBOR/JSON, ValidateAndSign, DecodeAndValidate CBOR/JSON(+deprecated alias)/COSE): each fails iff Validate() fails, emits/attaches nothing on failure, and equals its non-validating sibling on success. Non-trivial = invalid set whose defect is not merely a missing lifecycle; distinct = class vector")
+	st.Require = []string{"valid", "invalid", "gate=SetClaims", "gate=EncodeCBOR", "gate=EncodeJSON", "gate=ValidateAndSign", "gate=DecodeCBOR", "gate=DecodeJSON", "gate=DecodeCOSE", "invalid-encodable", "extension-profile", "extension-own-rule-broken"}
 	defer st.Flush(t)
+	registerMu.Lock()
+	defer registerMu.Unlock()
+	restore := psatoken.VerifCheckpointProfiles()
+	defer restore()
+	if err := psatoken.RegisterProfile(extP2Profile{}); err != nil {
+		t.Fatalf("VERIF-INFRA: %v", err)
+	}
 	rapid.Check(t, func(t *rapid.T) {
 		p := drawProf(t)
 		m := GenAny(t, p)
@@ -258,14 +274,37 @@ func TestC08_Gates(t *testing.T) {
 			st.Class("unrepresentable")
 			return
 		}
+		extBroken := false
+		isExt := false
+		if p == P2 && rapid.IntRange(0, 4).Draw(t, "extension") == 0 {
+			// a registered extension profile whose Validate() adds a rule of its
+			// own: every gate must consult THAT, not just the standard claims
+			m = GenValid(t, P2, true)
+			ts := rapid.SampledFrom([]int64{-1, -1700000000, 0, 5, 1700000000}).Draw(t, "ts")
+			var err error
+			if c, err = buildExt(m, &ts); err != nil {
+				t.Fatalf("VERIF-INFRA: %v", err)
+			}
+			extBroken = ts < 0
+			isExt = true
+		}
 		alg := rapid.SampledFrom(fastAlgs).Draw(t, "alg")
 		kp := keyFor(alg, rapid.IntRange(0, 3).Draw(t, "key"))
-		if msg := c08Gates(m, c, kp, st); msg != "" {
-			t.Fatalf("C08 violated: %s\n [%s]", msg, m.ClassVector())
+		if msg := c08Gates(m, c, kp, st, extBroken); msg != "" {
+			t.Fatalf("C08 violated: %s\n [%s] extension=%v own-rule-broken=%v", msg, m.ClassVector(), isExt, extBroken)
+		}
+		if isExt {
+			st.Class("extension-profile")
+			if extBroken {
+				st.Class("extension-own-rule-broken")
+			}
 		}
 		cls := []string{"valid"}
 		key := ""
-		if !m.Valid() {
+		if extBroken {
+			cls = []string{"invalid"}
+			key = "ext-own-rule|" + m.ClassVector()
+		} else if !m.Valid() {
 			cls = []string{"invalid"}
 			off := m.Offending()
 			if !(len(off) == 1 && off[0] == CLifecycle && m.Lifecycle == nil) {
